@@ -57,4 +57,13 @@ static NS void h_lin_verdict(const char* oracle) {
   if (r == -1) sim_violation(oracle, "%s", msg);
   if (r == -2) sim_probe("lin_inconclusive", 1);
 }
+
+/* the object under test lives in heap memory that held something else before: an init function that leaves a
+ * field untouched shows (the pattern is part of the program, so it shrinks and replays) */
+static NS __attribute__((unused)) void* h_dirty_alloc(size_t n) {
+  static const unsigned char pat[] = {0x00, 0xA5, 0xFF, 0x01, 0x7F};
+  void* p = malloc(n);
+  memset(p, pat[wl_pick(5)], n);
+  return p;
+}
 #endif
